@@ -655,6 +655,17 @@ package tree
 //@   trusted recursive insertion into a tree built by the tree constructors; result not specified; cache updates are immutable (only cache.NewUpdate writes their fields)
 //@   ensures updates_are_immutable: unchanged(cache.Update.path) && unchanged(cache.Update.value) && unchanged(cache.Update.priority) && unchanged(cache.Update.owner)
 
+// C02: the former version of an intent goes into the tree as it is stored and is then marked for deletion as a
+// whole, after every entry is in: an entry that meets another one of the same owner on its way in (the store may hold
+// a path twice) is merged by LeafVariants.Add, which drops delete flags set before
+//@ func (*RootEntry).LoadIntendedStoreOwnerData
+//@   props C02
+//@   nosafety only the order of loading and marking is claimed here
+//@   internal the_former_version_is_marked_as_a_whole_after_loading [C02]: r1 == nil ==> called(markOwnerDelete) &&
+//@            callarg(markOwnerDelete, 0, 1) == owner && callarg(markOwnerDelete, 0, 2) == deleteOnlyIntended && r0 == callres(ReadUpdatesOwner, 0)
+//@   loop 0 invariant the_entries_go_in_unflagged [C02]: !called(markOwnerDelete) && (called(AddCacheUpdateRecursive) ==>
+//@            callarg(AddCacheUpdateRecursive, 0, 3) == callres(NewUpdateInsertFlags, 0))
+
 // C10 (and C08): the JSON rendering writes the members of the active choice cases only, on key levels and in plain
 // containers, as the XML and the proto rendering do: the members walked are what filterActiveChoiceCaseChilds returns
 //@ func (*sharedEntryAttributes).toJsonInternal
